@@ -47,6 +47,8 @@ struct Op {
 	int64_t env = -1;        // MXCSR value on entry (-1: simulator default 0x1F80)
 	int heap = 0;            // seam::HP_* bits
 	bool expect_null = false;
+	uint32_t preempt = 0;    // >0: the thread executing this op is preempted after that many library instructions ...
+	uint32_t preempt_at = 0; // ... counted from the preempt_at-th scheduling point it passes inside the call (0 = from the start of the call); concurrent phases, plain variant
 };
 
 struct Plan {
